@@ -39,6 +39,9 @@ func runC16Once(seed int64, tier string, sc *Script) map[string]any {
 			err   error
 		}
 		outs := make([]outcome, n)
+		ownErr := make([]error, n) // the caller's own context error when Do returned
+		// in every other round contexts end by deadline instead of cancellation
+		deadlineMode := ri%2 == 1
 		// per caller: delay before the call, whether its context is cancelled while it fetches,
 		// whether it gives up waiting early
 		cancelInFetch := make([]bool, n)
@@ -59,6 +62,10 @@ func runC16Once(seed int64, tier string, sc *Script) map[string]any {
 				defer wg.Done()
 				time.Sleep(delays[i])
 				ctx, cancel := context.WithCancel(context.Background())
+				if deadlineMode && cancelInFetch[i] {
+					cancel()
+					ctx, cancel = context.WithTimeout(context.Background(), fetchDur[i]/2+delays[i]/4)
+				}
 				defer cancel()
 				if giveUp[i] {
 					go func() { time.Sleep(50 * time.Microsecond); cancel() }()
@@ -75,7 +82,11 @@ func runC16Once(seed int64, tier string, sc *Script) map[string]any {
 					time.Sleep(fetchDur[i])
 					defer atomic.AddInt32(&inFlight, -1)
 					if cancelInFetch[i] {
-						cancel()
+						if deadlineMode {
+							<-ctx.Done() // the deadline passes while the fetch is under way
+						} else {
+							cancel()
+						}
 						return nil, ctx.Err() // the fetch notices its context
 					}
 					atomic.AddInt32(&completed, 1)
@@ -83,6 +94,7 @@ func runC16Once(seed int64, tier string, sc *Script) map[string]any {
 					stored.Store(val)
 					return val, nil
 				})
+				ownErr[i] = ctx.Err()
 				outs[i] = outcome{first, v, err}
 			}(i)
 		}
@@ -116,8 +128,11 @@ func runC16Once(seed int64, tier string, sc *Script) map[string]any {
 				if sv := stored.Load(); sv == nil || sv != o.val {
 					verdict = fmt.Sprintf("caller-%d-result-not-the-stored-one", i)
 				}
-			} else if o.err != context.Canceled {
+			} else if o.err != context.Canceled && o.err != context.DeadlineExceeded {
 				verdict = "unexpected-error:" + o.err.Error()
+			} else if ownErr[i] == nil {
+				// a caller whose own context is alive never receives another caller's context error
+				verdict = fmt.Sprintf("caller-%d-with-a-live-context-got-%v", i, o.err)
 			}
 		}
 		if firsts > 1 {
